@@ -112,6 +112,14 @@ WriteFail(p) == /\ pc[p] = "write" /\ CanFault
                 /\ perr' = [perr EXCEPT ![p] = TRUE]
                 /\ Goto(p, AfterFile(p, TRUE)) /\ Advance(p) /\ Op(p, "write", "fail")
                 /\ UNCHANGED <<file, extra, yaml, tmp, readers, writer, res, crashes, tampers>>
+\* the Close of a file copy fails after all the data went out: the object is complete, but the store was told that
+\* it is not durable - it must fail exactly as for a failing write, and above all not write the marker
+CloseFail(p) == /\ pc[p] = "write" /\ CanFault /\ Layout = "dir"
+                /\ faults' = faults + 1
+                /\ file' = [file EXCEPT ![idx[p]] = "good"]
+                /\ perr' = [perr EXCEPT ![p] = TRUE]
+                /\ Goto(p, AfterFile(p, TRUE)) /\ Advance(p) /\ Op(p, "write", "closefail")
+                /\ UNCHANGED <<extra, yaml, tmp, readers, writer, res, crashes, tampers>>
 \* the marker: atomic put = temp file, write, rename
 YOpen(p) == /\ pc[p] = "yopen" /\ tmp' = tmp + 1 /\ Goto(p, "ywrite") /\ Op(p, "yopen", "ok")
             /\ UNCHANGED <<idx, perr, file, extra, yaml, readers, writer, res, faults, crashes, tampers>>
@@ -184,7 +192,7 @@ Tamper(k, f) ==
   /\ UNCHANGED <<pc, idx, perr, tmp, readers, writer, res, faults, crashes>>
 
 Step(p) == \/ RLock(p) \/ Read1(p) \/ RUnlock(p) \/ WLock(p) \/ Read2(p)
-           \/ Open(p) \/ OpenFail(p) \/ Write(p) \/ WriteFail(p)
+           \/ Open(p) \/ OpenFail(p) \/ Write(p) \/ WriteFail(p) \/ CloseFail(p)
            \/ YOpen(p) \/ YOpenFail(p) \/ YWrite(p) \/ YRename(p) \/ Unlock(p)
            \/ TarPutStart(p) \/ TarPutDone(p) \/ TarGet(p) \/ TarDelete(p)
            \/ Access(p) \/ Crash(p)
